@@ -802,18 +802,22 @@ class ParameterSpace(DesignSpace):
             The unnormalized vector.
         """
         if not use_dist:
-            return super().unnormalize_vect(x_vect, no_check=no_check, out=out)
+            return super().unnormalize_vect(
+                x_vect, minus_lb=minus_lb, no_check=no_check, out=out
+            )
 
         if x_vect.ndim not in {1, 2}:
             msg = "x_vect must be either a 1D or a 2D NumPy array."
             raise ValueError(msg)
 
-        return self.__unnormalize_vect(x_vect, no_check)
+        return self.__unnormalize_vect(x_vect, minus_lb, no_check)
 
-    def __unnormalize_vect(self, x_vect, no_check):
+    def __unnormalize_vect(self, x_vect, minus_lb, no_check):
         data_names = self._variables.keys()
         data_sizes = self.variable_sizes
-        x_u_geom = super().unnormalize_vect(x_vect, no_check=no_check)
+        x_u_geom = super().unnormalize_vect(
+            x_vect, minus_lb=minus_lb, no_check=no_check
+        )
         x_u = self.evaluate_cdf(
             split_array_to_dict_of_arrays(x_vect, data_sizes, data_names), inverse=True
         )
@@ -871,19 +875,19 @@ class ParameterSpace(DesignSpace):
             The normalized vector.
         """
         if not use_dist:
-            return super().normalize_vect(x_vect, out=out)
+            return super().normalize_vect(x_vect, minus_lb=minus_lb, out=out)
 
         if x_vect.ndim not in {1, 2}:
             msg = "x_vect must be either a 1D or a 2D NumPy array."
             raise ValueError(msg)
 
-        return self.__normalize_vect(x_vect)
+        return self.__normalize_vect(x_vect, minus_lb)
 
-    def __normalize_vect(self, x_vect):
+    def __normalize_vect(self, x_vect, minus_lb):
         data_names = self._variables.keys()
         data_sizes = self.variable_sizes
         dict_sample = split_array_to_dict_of_arrays(x_vect, data_sizes, data_names)
-        x_n_geom = super().normalize_vect(x_vect)
+        x_n_geom = super().normalize_vect(x_vect, minus_lb=minus_lb)
         x_n = self.evaluate_cdf(dict_sample)
         x_n_geom = split_array_to_dict_of_arrays(x_n_geom, data_sizes, data_names)
         missing_names = [name for name in data_names if name not in x_n]
